@@ -110,3 +110,61 @@ def op_sig(ops):
     kinds = [o["op"] for o in ops]
     grams = sorted(set(zip(kinds, kinds[1:], kinds[2:])))
     return kernel.digest(grams)[:12]
+
+
+# ---------------------------------------------------------------------------
+# composite (tree) scenarios
+# ---------------------------------------------------------------------------
+def tree_program(st, feats=None, cfg=None, rng=None):
+    rng = rng or st.prog
+    c = {"widths": rng.choice([[1, 2, 3], [2, 3], [2, 3, 4], [1, 2]]),
+         "max_blocks": rng.choice([1, 2, 2]), "max_stmts": rng.choice([2, 3, 4]),
+         "depth": rng.choice([1, 1, 2]), "signed": rng.random() < 0.6,
+         "nonrand": rng.random() < 0.7, "ps": rng.random() < 0.4,
+         "shifts": rng.random() < 0.3, "divmod": rng.random() < 0.2}
+    kinds = ["expr", "expr", "expr"]
+    for k, p in (("if", 0.5), ("implies", 0.4), ("in", 0.6), ("unique", 0.3)):
+        if rng.random() < p:
+            kinds.append(k)
+    c["stmts"] = kinds
+    ar = ["+", "-"]
+    for op, p in (("*", 0.3), ("&", 0.3), ("|", 0.3), ("^", 0.3)):
+        if rng.random() < p:
+            ar.append(op)
+    c["arith"] = ar
+    if cfg:
+        c.update(cfg)
+    f = {"depth": rng.choice([1, 2, 2, 3]), "fanout": rng.choice([1, 2]),
+         "lists": rng.random() < 0.7, "objlists": rng.random() < 0.6,
+         "nonrand_sub": rng.random() < 0.6, "foreach": rng.random() < 0.8,
+         "agg": rng.random() < 0.7, "cross": rng.random() < 0.85, "enums": False}
+    if feats:
+        f.update(feats)
+    g = progs.TreeGen(rng, c, f)
+    prog = g.tree_program()
+    return prog, g
+
+
+def solve_order_program(rng, name="S0"):
+    """small class using solve_order (a construction that needs an idle,
+    depth-1 constraint scope stack)"""
+    wa, wb = rng.choice([2, 3]), rng.choice([2, 3, 4])
+    k = rng.randint(1, (1 << wa) - 1)
+    return {"enums": [], "top": name, "classes": [{
+        "name": name,
+        "fields": [{"n": "a", "k": "s", "w": wa, "s": False, "r": True, "i": 0},
+                   {"n": "b", "k": "s", "w": wb, "s": False, "r": True, "i": 0}],
+        "blocks": [{"n": "c", "stmts": [
+            {"t": "solve_order", "before": [["a"]], "after": [["b"]]},
+            {"t": "implies", "c": progs.BIN("==", progs.F("a"), progs.LIT(k)),
+             "body": [progs.EXPR(progs.BIN("<", progs.F("b"), progs.LIT(2)))]}]}]}]}
+
+
+def norm_values(prog, cname, tree, rng):
+    """in-range value for every scalar path of a tree (normalising prefix)"""
+    P = refsem.Prog(prog)
+    out = []
+    for p in refsem.all_scalar_paths(P, cname, tree):
+        dom = refsem.path_domain(P, cname, p)
+        out.append((p, dom[rng.randrange(len(dom))]))
+    return out
